@@ -289,7 +289,16 @@ func decodeStructValueSlice(field reflect.Value, fieldType reflect.StructField, 
 		return nil
 	}
 
-	for _, el := range strings.Split(value, delim) {
+	var elements []string
+	if delim == " " {
+		/* Space separated lists may be folded over several lines (like the
+		 * Binary field of a .changes), so any run of whitespace separates. */
+		elements = strings.Fields(value)
+	} else {
+		elements = strings.Split(value, delim)
+	}
+
+	for _, el := range elements {
 		el = strings.Trim(el, strip)
 
 		targetValue := reflect.New(underlyingType)
